@@ -334,7 +334,8 @@ HISTORIES = ["none", "none", "sort_samples", "sort_obs", "transpose", "filter_sa
              "norm", "pa", "transform_zero", "copy", "sort_then_filter",
              # export, then change the SAME objects in place, then the export under test (stale caches)
              "export_then_transform", "export_then_pa", "export_then_norm", "export_then_update_ids",
-             "export_then_md_mutate", "export_then_sort_inplace_ids"]
+             "export_then_md_mutate", "export_then_sort_inplace_ids", "export_then_filter_inplace",
+             "export_then_filter_inplace"]
 
 LONG_TAILS = ["_" * 9 + "long", " with a much longer name é日本", ".%s" % ("x" * 40), "é" * 12]
 
@@ -454,6 +455,19 @@ def apply_history(t, h, hseed):
                             m_[k_] = "changed %d" % j
                 if rng.random() < 0.4 and len(md[0]) > 1:
                     t.del_metadata(keys=[sorted(md[0].keys())[0]], axis="observation")
+        elif h == "export_then_filter_inplace":
+            # the SAME table object loses IDs on an axis in place (by ID list, by predicate, or through remove_empty)
+            ids = list(t.ids(axis=ax))
+            keep = set(rng.sample(ids, rng.randint(1, len(ids))))
+            how = rng.choice(["ids", "predicate", "remove_empty"])
+            if how == "ids":
+                t.filter([i for i in ids if i in keep], axis=ax, inplace=True)
+            elif how == "predicate":
+                t.filter(lambda v, i, m: i in keep, axis=ax, inplace=True)
+            else:
+                t.remove_empty(axis=ax, inplace=True)
+            if 0 in t.shape:
+                return None
         elif h == "export_then_sort_inplace_ids":
             # same matrix object, other IDs: rename two IDs into each other's text
             ids = list(t.ids(axis=ax))
@@ -657,6 +671,13 @@ def check_case(ctx, lib, case, tags=()):
                 True, pr_name)
             if given != ls or shared_kw != {"md_parse": pr}:
                 mapping_failures.append("from_tsv changed an argument object of the caller")
+            # md_parse fed from lines that still carry their line ends (a handle, readlines())
+            add("handle:md_parse", list(io.StringIO(s)),
+                guarded(lambda: lib.Table.from_tsv(io.StringIO(s), None, None, lambda x: x, md_parse=pr), profile),
+                True, pr_name)
+            add("readlines:md_parse", list(io.StringIO(s)),
+                guarded(lambda: lib.Table.from_tsv(io.StringIO(s).readlines(), None, None, lambda x: x, md_parse=pr), profile),
+                True, pr_name)
             smap = AnyKey({i: {"where": "site %s" % i, "n": j} for j, i in enumerate(e["samp"])})
             omap = AnyKey({i: {"mapped": "obs %s" % i} for i in e["obs"]})
             kept = {}
